@@ -125,6 +125,16 @@ impl<I: RecvmsgSyscall> RecvmsgSyscall for NioRecvmsgSyscall<I> {
                 }
                 let error_kind = Error::last_os_error().kind();
                 if error_kind == ErrorKind::WouldBlock {
+                    if !blocking {
+                        // the caller asked for non-blocking semantics: report what was
+                        // moved so far, or EAGAIN
+                        std::mem::forget(vec);
+                        if received > 0 {
+                            reset_errno();
+                            return received.try_into().expect("received overflow");
+                        }
+                        return r;
+                    }
                     //wait read event
                     left_time = start_time
                         .saturating_add(recv_time_limit(fd))
